@@ -530,7 +530,9 @@ impl Material {
             // TODO: use mem::size_of
             let num_floats = constant.value_size / 4;
             for i in 0..num_floats as usize {
-                values[i] = mat_data.shader_values[(constant.value_offset as usize / 4) + i];
+                *values.get_mut(i)? = *mat_data
+                    .shader_values
+                    .get((constant.value_offset as usize / 4) + i)?;
             }
 
             constants.push(Constant {
